@@ -36,6 +36,8 @@ import (
 const (
 	sigBuilderGapBelow = "ack-ranges-not-ascending-gap-below-user-ack"
 	sigE2EGapBelow     = "e2e: AcknowledgementBatches sent not ascending (gap range below a user-acked offset)"
+	sigConfirmedParked = "record delivered again after its accept/reject was confirmed without error (acknowledgement piggybacked on a ShareFetch that returned no records)"
+	sigDoubleRenew     = "final acknowledgement sent twice for one delivery (renew entry drained, terminal status set before the request was built)"
 )
 
 var builderSamples atomic.Int32
@@ -236,8 +238,8 @@ func TestCheck(t *testing.T) {
 	checkBuilder(r)
 	checkParkedAckError(r)
 
-	nRT := r.Pick(24, 600)
-	nVT := r.Pick(40, 1000)
+	nRT := r.Pick(40, 800)
+	nVT := r.Pick(60, 1200)
 	if !e2e.HaveVT {
 		nVT = 0
 	}
